@@ -10,6 +10,8 @@ Case (self-contained JSON):
    "sched": [[tick, "Pause"|"Unpause"|"Hold"|"Unhold"], ...]   user commands issued before the tick with that number
    "tot":   [[first_tick, n_ticks, litres_per_tick], ...]        the totaliser input rises by that amount at each of these ticks
    "t0":    "epoch" | "zero"                                     size of the tick times
+   "rel":   [[wait_ordinal, offset, "Pause"|"Hold", length], ...]  directed requests: the command is issued before tick
+            (entry tick of that Wait line in a run without these requests) + offset, its release `length` ticks later
    "in2":   int                                                  input In2 = min(tick // in2, 3): when Watch conditions become true
    "max_ticks": int}
 """
@@ -204,6 +206,13 @@ def cases(draw, opts: dict):
             sched.append([a, kind])
             sched.append([a + ln, "Un" + kind.lower()])
         sched.sort(key=lambda e: e[0])
+    # directed sweep: a Pause/Hold request placed at an offset of -2..+2 ticks around the tick a Wait line is entered (found
+    # by a run without these requests, see resolved_sched), released 3-15 ticks later
+    rel = []
+    if draw(st.integers(0, 9)) < 4:
+        for _ in range(draw(st.integers(1, 2))):
+            rel.append([draw(st.integers(0, 7)), draw(st.sampled_from([-2, -1, 0, 0, 0, 1, 2])), draw(st.sampled_from(["Pause", "Hold"])),
+                        draw(st.integers(3, 15))])
     # totaliser: piecewise constant flow
     tot = []
     tick = 0
@@ -214,7 +223,7 @@ def cases(draw, opts: dict):
             tot.append([tick, ln, step])
         tick += ln
     return {"tree": tree, "sched": sched, "tot": tot, "t0": draw(st.sampled_from(["epoch", "epoch", "zero"])),
-            "in2": draw(st.sampled_from(IN2_STEPS)), "max_ticks": max_ticks}
+            "in2": draw(st.sampled_from(IN2_STEPS)), "max_ticks": max_ticks, "rel": rel}
 
 
 # ---------------------------------------------------------------------------------------------------------------
@@ -362,6 +371,13 @@ def valid_case(case) -> bool:
         return False
     if case.get("in2", 4) not in IN2_STEPS:
         return False
+    rel = case.get("rel", [])
+    if not isinstance(rel, list) or len(rel) > 4:
+        return False
+    for e in rel:
+        if not (isinstance(e, list) and len(e) == 4 and isinstance(e[0], int) and 0 <= e[0] <= 50 and isinstance(e[1], int)
+                and -3 <= e[1] <= 3 and e[2] in ("Pause", "Hold") and isinstance(e[3], int) and 1 <= e[3] <= 40):
+            return False
     sched, tot = case.get("sched"), case.get("tot")
     if not isinstance(sched, list) or not isinstance(tot, list):
         return False
@@ -384,7 +400,31 @@ class Run:
     __slots__ = ("ticks", "first_start", "starts", "events", "rejected", "error", "raised", "method_end", "tot_at")
 
 
-def run(case, tree=None, until_started: str | None = None, max_ticks: int | None = None) -> Run:
+def resolved_sched(case) -> list:
+    """case["sched"] plus the directed requests of case["rel"] as absolute [tick, command] entries.  The entry tick of the
+    targeted Wait line (ordinal modulo the number of Wait lines, source order) is taken from a run of the same case without
+    the directed requests (deterministic, so the case stays self-contained)."""
+    sched = [list(e) for e in case["sched"]]
+    rel = case.get("rel") or []
+    if not rel:
+        return sched
+    waits = [l for l in render(case["tree"]) if l.kind == "wait"]
+    if not waits:
+        return sched
+    for k, off, kind, ln in rel:
+        target = waits[k % len(waits)]
+        r0 = run(case, until_started=target.id, sched=case["sched"])
+        t = r0.first_start.get(target.id)
+        if t is None or r0.raised is not None or r0.error is not None:
+            continue
+        a = max(1, t + off)
+        sched.append([a, kind])
+        sched.append([a + ln, "Un" + kind.lower()])
+    sched.sort(key=lambda e: e[0])
+    return sched
+
+
+def run(case, tree=None, until_started: str | None = None, max_ticks: int | None = None, sched=None) -> Run:
     """Execute the case (optionally with another tree: the twin).  Stops at max_ticks, or 6 ticks after the method ended,
     or as soon as the line `until_started` is reported started.
     ticks[i] = (no, time, state_at_end, prev_state);  first_start[line_id] = tick no at which get_method_state() first
@@ -397,8 +437,9 @@ def run(case, tree=None, until_started: str | None = None, max_ticks: int | None
     r.ticks, r.first_start, r.rejected, r.error, r.raised, r.method_end, r.tot_at = [], {}, 0, None, None, None, {}
     r.starts = {}          # line id -> ticks at which an execution of the line was first reported started
     status: dict = {}      # line id -> 'S' started / 'E' executed / 'F' failed, as reported at the end of the previous tick
+    sched_in = case["sched"] if sched is None else sched
     sched: dict = {}
-    for t, c in case["sched"]:
+    for t, c in sched_in:
         sched.setdefault(t, []).append(c)
     tot_add: dict = {}
     for t, ln, v in case["tot"]:
